@@ -119,10 +119,23 @@ def run_property(prop: str, tier: str) -> int:
             tail = ""
             try:
                 with open(log.name, "rb") as lf:
-                    tail = lf.read()[-800:].decode("utf-8", "replace")
+                    raw_log = lf.read().decode("utf-8", "replace")
+                # the head of a faulthandler dump names the failing thread's stack; the tail lists extension modules
+                tail = raw_log[:1500] + (" ... " + raw_log[-300:] if len(raw_log) > 1800 else "")
             except OSError:
                 pass
-            problems.append(f"worker died without a verdict (rc={p.returncode}): {tail}")
+            last = ""
+            try:
+                with open(out + ".cur") as cf:
+                    cur_case = json.load(cf)
+                os.makedirs(os.path.join(OUT, "replays"), exist_ok=True)
+                rp = os.path.join(OUT, "replays", f"{prop}-{seed}-died-{len(problems)}.json")
+                with open(rp, "w") as rf:
+                    json.dump({"property": prop, "tier": tier, "seed": seed, "key": "WORKER-DIED", "detail": tail, "case": cur_case["case"], "extra": None}, rf)
+                last = f" while running case {cur_case['index']} (stored as {os.path.relpath(rp, OUT)})"
+            except (OSError, ValueError):
+                pass
+            problems.append(f"worker died without a verdict (rc={p.returncode}){last}: {tail}")
     shutil.rmtree(work, ignore_errors=True)
 
     agg = merge_results(results) if results else None
